@@ -94,6 +94,16 @@ Example C11_retry_nonvacuous :
   option_map (@List.length resp) (accepted_attempt acc 3 [[r 50000; r 60000]; [r 7; r 9]; [r 1; r 2]]) = Some 2%nat.
 Proof. vm_compute. split; reflexivity. Qed.
 
+(* measure-directly handles: the outcome is post-processed exactly for a RECEIVER that expects Phi+ (a
+   creator's handle returns the raw outcome of its pair's response), and every handle carries the requested
+   rotations; tabulated from the real deserialize_epr_measure_results for both roles, expectation on/off,
+   n = 1..4 *)
+Theorem C11_measure_post_process_flags :
+  forallb (fun x => match x with (role, expect, _, _, pp, rot) =>
+             Bool.eqb pp (expect && String.eqb role "RECV") && rot end) gen_measure_flags = true /\
+  Nat.eqb (List.length gen_measure_flags) 40 = true.
+Proof. vm_compute. split; reflexivity. Qed.
+
 (* (4) a Bell state reported through qlink-interface 1.0 is decoded by the SDK as the
    state of the same name (both numberings regenerated; finite) *)
 Theorem C11_bell_state_by_name :
